@@ -183,8 +183,15 @@ func runStoreHistories(r *vh.Run, rng *vh.RNG, dir string) {
 			net = chainx.NewNet(trng, 1000, 2000, 2)
 			kinds = append(append([]string{"v1pay"}, chainx.ContractKinds...), chainx.ContractKinds...)
 		}
-		t := chainx.GenTree(trng, net, chainx.GenCfg{Main: 10 + trng.Intn(10), Forks: 1 + trng.Intn(3), MaxBranch: 3 + trng.Intn(8),
+		t, gerr := chainx.SafeGenTree(trng, net, chainx.GenCfg{Main: 10 + trng.Intn(10), Forks: 1 + trng.Intn(3), MaxBranch: 3 + trng.Intn(8),
 			Kinds: kinds, TxPerBlk: 3, Corrupt: trng.Intn(2), Extend: 2})
+		if gerr != nil {
+			gc := &vh.Case{Name: fmt.Sprintf("tree%d/generator", i), Nontrivial: true}
+			gc.Op("build-history", "panic")
+			gc.Oracle("linear-node-panicked-while-building-history", "a node fed a linear chain of freshly mined blocks panicked or rejected a valid block: %v", gerr)
+			r.Add(gc)
+			continue
+		}
 		runStoreHistory(r, fmt.Sprintf("store%d", i), t, t.Schedule(trng), dir, i)
 	}
 }
